@@ -86,6 +86,14 @@ func (p *compressionPool) compress(dst, src *bytes.Buffer) error {
 }
 
 func (p *compressionPool) decompress(dst, src *bytes.Buffer) error {
+	return p.decompressLimited(dst, src, -1)
+}
+
+// decompressLimited is like decompress, but it stops and returns a
+// resource-exhausted error as soon as the decompressed data exceeds limit
+// bytes (a negative limit means no limit). This bounds the memory used for
+// a small payload that expands to a very large one.
+func (p *compressionPool) decompressLimited(dst, src *bytes.Buffer, limit int64) error {
 	if p == nil {
 		_, err := io.Copy(dst, src)
 		return err
@@ -96,8 +104,18 @@ func (p *compressionPool) decompress(dst, src *bytes.Buffer) error {
 	if err := decomp.Reset(src); err != nil {
 		return err
 	}
-	if _, err := dst.ReadFrom(decomp); err != nil {
+	var reader io.Reader = decomp
+	if limit >= 0 {
+		// read one byte more than allowed, to tell "exactly limit" from "too much"
+		reader = io.LimitReader(decomp, limit+1)
+	}
+	n, err := dst.ReadFrom(reader)
+	if err != nil {
 		return err
+	}
+	if limit >= 0 && n > limit {
+		_ = decomp.Close()
+		return bufferLimitError(limit)
 	}
 	return decomp.Close()
 }
